@@ -33,7 +33,7 @@ TECHNIQUE = "runtime monitoring: history checker over recorded read/write cycles
 
 OPTSETS = [{}, {"version": 1.2}, {"version": 2, "wrap": True}, {"fmt": "%.2f"}, {"wrap": True, "data_width": 40, "fmt": "%.3f"},
            {"mnemonics_header": True, "data_section_header": "~A"}, {"version": 1.2, "wrap": False, "len_numeric_field": -1}]
-MUTATIONS = ["none", "dup_curve", "blank_curve", "dup_param", "unit_point1in", "empty_values", "long_fields", "blank_param", "empty_step", "dup_null", "vers_1.0", "vers_2.1", "vers_3.0", "vers_1.2", "wrap_Yes", "wrap_yes", "wrap_No", "numeric_unit", "blank_param_float", "nested_bracket_units"]
+MUTATIONS = ["none", "dup_curve", "blank_curve", "dup_param", "unit_point1in", "empty_values", "long_fields", "blank_param", "empty_step", "dup_null", "vers_1.0", "vers_2.1", "vers_3.0", "vers_1.2", "wrap_Yes", "wrap_yes", "wrap_No", "numeric_unit", "blank_param_float", "nested_bracket_units", "other_trailing_blank_lines"]
 
 
 def corpus():
@@ -58,6 +58,8 @@ def grid(tier):
         yield {"input": "gen", "seed": 5100 + k, "mutation": "blank_param_float", "opts": [0, 1, 2, 5][k]}
     for k in range(4):
         yield {"input": "gen", "seed": 5200 + k, "mutation": "nested_bracket_units", "opts": [0, 1, 2, 5][k]}
+    for k in range(3):
+        yield {"input": "gen", "seed": 5300 + k, "mutation": "other_trailing_blank_lines", "opts": [0, 1, 2][k]}
     for k, v in enumerate(["vers_1.0", "vers_1.2", "vers_2.1", "vers_3.0"] * 6):
         yield {"input": "gen", "seed": 2000 + k, "mutation": v, "opts": [0, 3, 5, 4][k % 4]}      # option sets that leave version=None
     k = 0
@@ -124,6 +126,8 @@ def mutate(lasio, las, mutation):
     elif mutation.startswith("vers_"):
         # every version number defaults.ORDER_DEFINITIONS tabulates, declared by the object itself (write(version=None) keeps it)
         las.version["VERS"].value = float(mutation[5:])
+    elif mutation == "other_trailing_blank_lines":
+        las.other = (las.other or "remarks") + "\n\n\n"
     elif mutation == "nested_bracket_units":
         # units in two or three layers of brackets (one layer is stripped by every read)
         las.params.append(lasio.HeaderItem("BRK2", "((m))", 5, "two layers"))
